@@ -347,6 +347,49 @@ def reresolve(rec, stats):
             t["resolved"] = "<I as core::iter::IntoIterator>::into_iter"
             t["rargs"] = [ca[0]]
             changed = True
+    # operator traits on primitive numbers (`a - b`, `a >= b` in a generic helper instantiated at i8 / f64): the MIR of the operator itself.
+    # `impl Sub for i8` etc. are #[rustc_inherit_overflow_checks]: they panic on overflow exactly when `a - b` written in this crate would,
+    # so the integer forms become the checked operation followed by the overflow assertion, as rustc emits for the expression.
+    ARITH = {"core::ops::Add::add": "Add", "core::ops::Sub::sub": "Sub", "core::ops::Mul::mul": "Mul", "core::ops::Div::div": "Div", "core::ops::Rem::rem": "Rem",
+             "core::ops::BitAnd::bitand": "BitAnd", "core::ops::BitOr::bitor": "BitOr", "core::ops::BitXor::bitxor": "BitXor"}
+    CMP = {"core::cmp::PartialOrd::ge": "Ge", "core::cmp::PartialOrd::gt": "Gt", "core::cmp::PartialOrd::le": "Le", "core::cmp::PartialOrd::lt": "Lt",
+           "core::cmp::PartialEq::eq": "Eq", "core::cmp::PartialEq::ne": "Ne"}
+    prim = lambda ty_: isinstance(ty_, dict) and ty_.get("k") in ("int", "uint", "float")
+    for bi in range(len(rec["blocks"])):
+        blk = rec["blocks"][bi]
+        t = blk["term"]
+        if t["k"] != "call" or t.get("resolved") or t.get("target") is None or t["dest"]["proj"]:
+            continue
+        ca = t.get("cargs") or []
+        c = t.get("callee")
+        if len(ca) < 2 or not prim(ca[0]) or ca[0] != ca[1] or len(t["args"]) != 2:
+            continue
+        line = t.get("line")
+        if c in ARITH:
+            op = ARITH[c]
+            if ca[0]["k"] != "float" and op in ("Add", "Sub", "Mul"):
+                n = len(rec["locals"])
+                rec["locals"].append({"k": "tuple", "elems": [ca[0], {"k": "bool"}]})
+                nb = len(rec["blocks"])
+                blk["stmts"] = list(blk["stmts"]) + [{"k": "assign", "place": {"local": n, "proj": []},
+                                                     "rv": {"k": "binop", "op": op + "WithOverflow", "a": copy.deepcopy(t["args"][0]), "b": copy.deepcopy(t["args"][1])}, "line": line}]
+                blk["term"] = {"k": "assert", "cond": {"k": "move", "place": {"local": n, "proj": [{"k": "field", "i": 1, "ty": {"k": "bool"}}]}}, "expected": False,
+                               "kind": "Overflow:" + op, "ops": [copy.deepcopy(t["args"][0]), copy.deepcopy(t["args"][1])], "msg": None, "target": nb, "line": line}
+                rec["blocks"].append({"stmts": [{"k": "assign", "place": copy.deepcopy(t["dest"]),
+                                                 "rv": {"k": "use", "op": {"k": "move", "place": {"local": n, "proj": [{"k": "field", "i": 0, "ty": ca[0]}]}}}, "line": line}],
+                                      "term": {"k": "goto", "target": t["target"]}})
+            elif op in ("Div", "Rem") and ca[0]["k"] != "float":
+                continue          # division by zero / MIN / -1 checks: left as the call
+            else:
+                blk["stmts"] = list(blk["stmts"]) + [{"k": "assign", "place": copy.deepcopy(t["dest"]),
+                                                     "rv": {"k": "binop", "op": op, "a": copy.deepcopy(t["args"][0]), "b": copy.deepcopy(t["args"][1])}, "line": line}]
+                blk["term"] = {"k": "goto", "target": t["target"]}
+            changed = True
+        elif c in CMP and all(a["k"] in ("move", "copy") and not a["place"]["proj"] and rec["locals"][a["place"]["local"]].get("k") == "ref" for a in t["args"]):
+            da = [{"k": "copy", "place": {"local": a["place"]["local"], "proj": [{"k": "deref"}]}} for a in t["args"]]
+            blk["stmts"] = list(blk["stmts"]) + [{"k": "assign", "place": copy.deepcopy(t["dest"]), "rv": {"k": "binop", "op": CMP[c], "a": da[0], "b": da[1]}, "line": line}]
+            blk["term"] = {"k": "goto", "target": t["target"]}
+            changed = True
     if changed:
         stats.setdefault(rec["path"], []).append("reresolve")
     return changed
@@ -1726,7 +1769,7 @@ def fold_try(rec, stats):
 
         def _resid(d):
             # the inlined helper's own `?`: its early return is `x = from_residual(..)`, always an Err
-            return d[0] == "call" and not d[3]["dest"]["proj"] and (d[3].get("resolved") or d[3].get("callee") or "").endswith("::from_residual")
+            return d[0] == "call" and not d[3]["dest"]["proj"] and _is_result_residual(d[3].get("resolved") or d[3].get("callee") or "")
         if not defs or not any(_agg(d) for d in defs) or not all(_agg(d) or _resid(d) for d in defs):
             continue
         if not (xty.get("k") == "adt" and len(xty.get("args") or []) == 2):
@@ -1760,6 +1803,11 @@ def fold_try(rec, stats):
         stats.setdefault(rec["path"], []).append("fold:try")
         changed = True
     return changed
+
+
+def _is_result_residual(c):
+    """from_residual of a RESULT (always an Err, variant 1); Option's from_residual yields None (variant 0) and is not meant here"""
+    return c.endswith("::from_residual") and "core::result::Result" in c and "option::Option<T> as" not in c
 
 
 def fold_from_residual(rec, stats):
@@ -1881,6 +1929,51 @@ def thread_jumps(rec, stats):
     return changed
 
 
+def simplify_drops(rec, stats):
+    """What a generic helper leaves behind once it is instantiated at a primitive type: `drop(x)` of a value that has no drop glue is a plain
+    jump, and a switch on a drop flag (a bool that is only ever assigned literals) whose arms meet again without doing anything is a jump too."""
+    changed = False
+    nodrop = lambda ty: isinstance(ty, dict) and ty.get("k") in ("int", "uint", "float", "bool", "char", "ref", "rawptr", "never")
+    for blk in rec["blocks"]:
+        t = blk["term"]
+        if t["k"] == "drop" and not blk.get("cleanup") and t.get("target") is not None:
+            pl = t.get("place") or {}
+            if isinstance(pl, dict) and "local" in pl and not pl.get("proj") and nodrop(rec["locals"][pl["local"]]):
+                blk["term"] = {"k": "goto", "target": t["target"]}
+                changed = True
+
+    def land(b):
+        for _ in range(6):
+            jb = rec["blocks"][b]
+            if not jb["stmts"] and jb["term"]["k"] == "goto" and not jb.get("cleanup"):
+                b = jb["term"]["target"]
+            else:
+                break
+        return b
+    flags = {}
+    for blk in rec["blocks"]:
+        for st in blk["stmts"]:
+            if st["k"] == "assign" and not st["place"]["proj"]:
+                l = st["place"]["local"]
+                lit = st["rv"]["k"] == "use" and st["rv"]["op"].get("k") == "const" and "val" in st["rv"]["op"]
+                flags[l] = flags.get(l, True) and lit
+        t = blk["term"]
+        if t["k"] == "call" and not t["dest"]["proj"]:
+            flags[t["dest"]["local"]] = False
+    for blk in rec["blocks"]:
+        t = blk["term"]
+        if t["k"] == "switch" and not blk.get("cleanup") and t["discr"].get("k") in ("move", "copy") and not t["discr"]["place"]["proj"]:
+            l = t["discr"]["place"]["local"]
+            if flags.get(l) and rec["locals"][l].get("k") == "bool":
+                tg = {land(tb) for v, tb in t["arms"]} | {land(t["otherwise"])}
+                if len(tg) == 1:
+                    blk["term"] = {"k": "goto", "target": tg.pop()}
+                    changed = True
+    if changed:
+        stats.setdefault(rec["path"], []).append("simplify:drops")
+    return changed
+
+
 def thread_shapes(rec, stats, budget=40):
     """Forward propagation of the shape of values built in place (Ok(Some(e)), Continue(..)): from a block that ends in `goto`, the straight-line
     successors are executed symbolically; a `switch discr(x)` whose x has a known variant on this path is resolved, and the statements on the way
@@ -1912,7 +2005,7 @@ def thread_shapes(rec, stats, budget=40):
     for P, pb in enumerate(list(rec["blocks"])):
         t = pb["term"]
         if t["k"] == "call" and t.get("target") is not None and not t["dest"]["proj"] and t["dest"]["local"] != 0 \
-                and (t.get("resolved") or t.get("callee") or "").endswith("::from_residual") and not pb.get("cleanup") and not t.get("_landing"):
+                and _is_result_residual(t.get("resolved") or t.get("callee") or "") and not pb.get("cleanup") and not t.get("_landing"):
             ni = len(rec["blocks"])
             rec["blocks"].append({"stmts": [], "term": {"k": "goto", "target": t["target"]}})
             t["target"] = ni
@@ -2310,6 +2403,9 @@ def apply(prog):
             touched.add(p)
     for p in list(touched):
         reresolve(recs[p], stats)
+        for _ in range(3):
+            if not simplify_drops(recs[p], stats):
+                break
         fold_try(recs[p], stats)
         for _ in range(6):
             if not thread_jumps(recs[p], stats):
